@@ -9,7 +9,6 @@ SPECS = [
     ('c07::c07_args_first', 'category (16, void apart) x direction (4) x method oneway (2), single argument: count, kind and range of every Error', 'quick', ['c07']),
     ('c07::c07_void_arg_oneway_rule', 'void argument: the oneway rule still applies', 'quick', ['c07']),
     ('c07::c07_inherited_oneway', 'oneway inherited from the interface (set_up_oneway_interface then check_method): category x direction x interface oneway x method oneway', 'quick', ['c07']),
-    ('c07::c07_args_second', 'same product with the argument in second position behind a legal argument', 'thorough', ['c07']),
 ]
 
 
@@ -17,7 +16,7 @@ def check(run):
     run.functions += ['validation::check_method_args (%s)' % src_line('src/validation.rs', 'fn check_method_args'),
                       'validation::get_requirement_for_arg_direction (%s)' % src_line('src/validation.rs', 'fn get_requirement_for_arg_direction'),
                       'validation::check_method, set_up_oneway_interface', 'validation::validate per-file closure (order of the steps)']
-    run.bounds += ['17 categories x 4 directions x oneway x inherited oneway; one or two arguments; unwind 4']
+    run.bounds += ['17 categories x 4 directions x oneway x inherited oneway; one symbolic argument (a second symbolic argument runs CBMC out of memory; later argument positions are covered by the native sweep); unwind 4']
     run.outside += ['that source text produces exactly these 17 categories is shown by the native sweep only (resolution needs HashMap)', 'message wording (alloc::fmt::format is stubbed)']
     run.assumptions += ['stub: alloc::fmt::format -> String::new()', 'diagnostic vector pre-sized (Vec::with_capacity) in the harness', 'void as an argument type: the statement is silent on the type rule; only the oneway rule is asserted']
     run.extra['explanation'] = 'Kani/CBMC decides the complete finite product against a reference table written from the property; the pipeline order is decided on the MIR CFG of validate; native sweep of 544 source-level cases confirms counterexamples.'
